@@ -344,16 +344,26 @@ def size_class(bits):
     return 'fail' if bits < 2048 else 'warn' if bits < 3072 else None
 
 
+# the key exchange lists under which the sizes are measured: what is said about a host key does not depend on them (the probes run over the
+# first method of the list the tool can speak - a group exchange if that is all there is)
+_G256, _G1 = 'diffie-hellman-group-exchange-sha256', 'diffie-hellman-group-exchange-sha1'
+SIZE_KEXLISTS = [['curve25519-sha256'], [_G256], ['sntrup761x25519-sha512@openssh.com', _G256, 'kex-strict-s-v00@openssh.com'], [_G1, _G256], ['frob-kex@example.org', _G1],
+                 [_G256, 'curve25519-sha256'], ['diffie-hellman-group16-sha512']]
+
+
 def work_sizes(chunk, st):
-    for names, bits, ca, ca_bits in chunk:
+    for task in chunk:
+        names, bits, ca, ca_bits = task[:4]
+        kexl = SIZE_KEXLISTS[task[4] if len(task) > 4 else 0]
         names = list(names)
         for fmt in ('text', 'json'):
-            srv = peer.Server(kex=['curve25519-sha256'], key=names, enc=['aes256-ctr'], mac=['hmac-sha2-256'], banner=b'SSH-2.0-dropbear_2022.83',
-                              host_keys=peer.standard_host_keys(names, rsa_bits=bits, ca=ca, ca_bits=ca_bits))
+            srv = peer.Server(kex=kexl, key=names, enc=['aes256-ctr'], mac=['hmac-sha2-256'], banner=b'SSH-2.0-dropbear_2022.83',
+                              host_keys=peer.standard_host_keys(names, rsa_bits=bits, ca=ca, ca_bits=ca_bits),
+                              gex=peer.GexPolicy([3072], peer.STRICT) if any('group-exchange' in k for k in kexl) else None)
             res = H.audit(srv, opts=['-n', '--skip-rate-test'] + (['-j'] if fmt == 'json' else []))
-            root = ('sizes', tuple(names), bits, ca, ca_bits, fmt)
+            root = ('sizes', tuple(names), bits, ca, ca_bits, fmt, tuple(kexl))
             st.execution(res.world, outcome=('sizes', res.status, fmt), root=root, nontrivial=root)
-            d = {'names': names, 'key_bits': bits, 'ca': ca, 'ca_bits': ca_bits, 'fmt': fmt, 'status': res.status}
+            d = {'names': names, 'key_bits': bits, 'ca': ca, 'ca_bits': ca_bits, 'fmt': fmt, 'status': res.status, 'kex': kexl}
             if res.status not in (0, 2, 3) or res.hang or res.exc:
                 st.violation('sizes:no-report', dict(d, tail=res.stdout[-200:]))
                 continue
@@ -458,6 +468,10 @@ def size_tasks(tier):
             for c in RSA_CERT:
                 out.append(((c,), 4096, 'rsa', bits))
                 out.append(((c,), bits, 'rsa', bits))
+    for ki in range(1, len(SIZE_KEXLISTS)):
+        for bits in (1024, 2047, 2048, 3071, 3072, 4096):
+            out.append((tuple(RSA_PLAIN), bits, 'ed25519', 256, ki))
+            out.append(((RSA_CERT[0], RSA_PLAIN[2]), bits, 'rsa', 2048 if bits >= 3072 else 4096, ki))
     return out
 
 
